@@ -418,7 +418,8 @@ Qed.
 Lemma expand_spec q ents req nb q1 : fq_inv q ents -> base_ok nb -> 0 <= req ->
   expand_storage q req nb = Ok q1 ->
   fq_inv q1 ents /\ hv_len (fq_cur q1) + req <= hv_cap (fq_cur q1) /\ hv_base (fq_cur q1) = nb /\
-  (exists j, 10 <= j /\ hv_cap (fq_cur q1) = 2 ^ j) /\ hv_cap (fq_cur q) < hv_cap (fq_cur q1).
+  (exists j, 10 <= j /\ hv_cap (fq_cur q1) = 2 ^ j) /\ hv_cap (fq_cur q) < hv_cap (fq_cur q1) /\
+  hv_cap (fq_cur q1) <= Z.max 1024 (2 * Z.max (hv_cap (fq_cur q)) (req + 32)).
 Proof.
   intros Hinv (Hnb0 & Hnb8) Hreq. unfold expand_storage.
   pose proof (chain_inv_wf _ _ _ Hinv) as (Hb0 & Hb8 & Hlen & Hl8).
@@ -426,7 +427,7 @@ Proof.
   - (* the old buffer is empty: it is dropped *)
     apply Z.eqb_eq in E0. cbn [olift rbind].
     destruct (expand_size _ _) as [size|] eqn:Es; cbn [olift rbind]; [|discriminate].
-    apply expand_size_some in Es; [|lia|lia]. destruct Es as (j & Hj & -> & Hc1 & Hc2 & _ & _).
+    apply expand_size_some in Es; [|lia|lia]. destruct Es as (j & Hj & -> & Hc1 & Hc2 & Hc3 & _).
     destruct (hv_with_size _ _) as [new|] eqn:En; cbn [rbind]; [|discriminate].
     apply hv_with_size_ok in En. destruct En as [-> _]. cbn [fq_cur hv_cap hv_len hv_base].
     unfold csub. replace (0 <=? 2 ^ j) with true by (symmetry; apply Z.leb_le; lia). cbn [olift rbind].
@@ -441,7 +442,7 @@ Proof.
     unfold cadd64 at 1. destruct (req + CHAIN_ITEM_SIZE <? _) eqn:Eo; cbn [olift rbind]; [|discriminate].
     destruct (expand_size _ _) as [size|] eqn:Es; cbn [olift rbind]; [|discriminate].
     change CHAIN_ITEM_SIZE with 32 in *.
-    apply expand_size_some in Es; [|lia|lia]. destruct Es as (j & Hj & -> & Hc1 & Hc2 & _ & _).
+    apply expand_size_some in Es; [|lia|lia]. destruct Es as (j & Hj & -> & Hc1 & Hc2 & Hc3 & _).
     destruct (hv_with_size _ _) as [new|] eqn:En; cbn [rbind]; [|discriminate].
     apply hv_with_size_ok in En. destruct En as [-> _].
     change (push_req CHAIN_PAYLOAD 8) with (push_req (CHAIN_ITEM_SIZE - 8) 8). rewrite chain_req.
